@@ -953,6 +953,63 @@ impl Comp for SamComp {
 }
 
 
+
+// ---------------------------------------------------------------------------------------------
+// PutResult itself: the hand-written `PartialEq` and `Clone`
+// ---------------------------------------------------------------------------------------------
+
+struct PrComp;
+fn parse_pr(t: &str) -> Option<caches::PutResult<u64, u64>> {
+    let p: Vec<&str> = t.split(':').collect();
+    let n = |i: usize| -> Option<u64> { p.get(i)?.parse().ok() };
+    Some(match (p[0], p.len()) {
+        ("P", 1) => caches::PutResult::Put,
+        ("U", 2) => caches::PutResult::Update(n(1)?),
+        ("E", 3) => caches::PutResult::Evicted { key: n(1)?, value: n(2)? },
+        ("X", 4) => caches::PutResult::EvictedAndUpdate { evicted: (n(1)?, n(2)?), update: n(3)? },
+        _ => return None,
+    })
+}
+fn fmt_pr(r: &caches::PutResult<u64, u64>) -> String {
+    match r {
+        caches::PutResult::Put => "Put".into(),
+        caches::PutResult::Update(o) => format!("Update({})", o),
+        caches::PutResult::Evicted { key, value } => format!("Evicted({}:{})", key, value),
+        caches::PutResult::EvictedAndUpdate { evicted, update } => {
+            format!("EvictedAndUpdate({}:{},{})", evicted.0, evicted.1, update)
+        }
+    }
+}
+impl Comp for PrComp {
+    fn op(&mut self, op: &str, sa: &[&str]) -> Option<String> {
+        Some(match (op, sa.len()) {
+            ("preq", 2) => {
+                let (a, b) = (parse_pr(sa[0])?, parse_pr(sa[1])?);
+                // `==` and `!=` must be each other's negation, and the derived `Copy` must agree with `Clone`
+                let (e, ne) = (a == b, a != b);
+                if e == ne {
+                    return Some("INCONSISTENT eq/ne".into());
+                }
+                format!("{}", e)
+            }
+            ("prclone", 1) => {
+                let a = parse_pr(sa[0])?;
+                #[allow(clippy::clone_on_copy)]
+                let c = a.clone();
+                let d = a; // Copy
+                if fmt_pr(&c) != fmt_pr(&d) {
+                    return Some("INCONSISTENT clone/copy".into());
+                }
+                fmt_pr(&c)
+            }
+            _ => return None,
+        })
+    }
+    fn dump(&self) -> String {
+        "-".into()
+    }
+}
+
 // ---------------------------------------------------------------------------------------------
 // W-TinyLFU built through the constructors that fix the key hasher (`new`, `with_sizes`, `builder()`): only the
 // configuration is observable here (the default key hasher is not known to the model)
@@ -1398,6 +1455,7 @@ fn run_keyed<K: KeyKind>(case: &Case, out: &mut impl Write) {
                 out,
             )
         }
+        "putresult" => drive(|| Ok(PrComp), case, out),
         "wtsizes" => {
             let (w, q, p, samples) = (
                 case.num("wcap") as usize,
